@@ -32,9 +32,18 @@ import (
 	"go/types"
 	"strconv"
 	"strings"
+	"time"
 
 	"golang.org/x/tools/go/ssa"
 )
+
+// imageBudget: wall-clock budget of one image evaluation (today's images take 2-3 ms each).  After
+// imageLateMax evaluations ran out of it, the remaining images are reported undecided at once: a
+// tree on which the codecs branch on unknown values at every statement is not evaluated for hours.
+var imageBudget = 10 * time.Second
+var imageLate = 0
+
+const imageLateMax = 4
 
 type imgElem struct {
 	slot  SpecSlot
@@ -278,6 +287,7 @@ func semCodecImages(w *World, c *Codec, sm *SpecMessage, full bool) []imgResult 
 		it := NewInterp(w)
 		it.Fuel = 400000
 		it.CheckBounds = true
+		it.Deadline = time.Now().Add(imageBudget)
 		readerModels(it)
 		return it
 	}
@@ -312,7 +322,16 @@ func semCodecImages(w *World, c *Codec, sm *SpecMessage, full bool) []imgResult 
 	}
 	var res []imgResult
 	run := func(what string, elems, wantElems []imgElem, reject bool) {
+		if imageLate >= imageLateMax {
+			res = append(res, imgResult{what: what, decided: false, ok: false, why: "not evaluated: earlier image evaluations of this tree ran out of their time budget"})
+			return
+		}
 		it := newIt()
+		defer func() {
+			if it.late {
+				imageLate++
+			}
+		}()
 		img := buildImage(it, c.Name, elems)
 		want := img
 		if wantElems != nil {
@@ -460,12 +479,19 @@ func semCodecImages(w *World, c *Codec, sm *SpecMessage, full bool) []imgResult 
 			}
 			e = append(mandElems(0), o)
 		}
+		if imageLate >= imageLateMax {
+			res = append(res, imgResult{what: "input cut one octet before the end of " + s.IE, decided: false, ok: false, why: "not evaluated: earlier image evaluations of this tree ran out of their time budget"})
+			continue
+		}
 		it := newIt()
 		img := buildImage(it, c.Name, e)
 		if len(img) < 2 {
 			continue
 		}
 		d, ok, why := runImage(w, c, img[:len(img)-1], nil, it, true)
+		if it.late {
+			imageLate++
+		}
 		res = append(res, imgResult{what: "input cut one octet before the end of " + s.IE, decided: d, ok: ok, why: why})
 		ntr++
 		if !full && ntr >= 3 {
